@@ -27,3 +27,33 @@ contract(
     asserts=[dict(before="s += os.pathsep.join(", label="the-key-is-expanded-and-the-=-kept", clause="s == tilde(pre) + '=' and char == '='")],
     from_property="a quoted Python string literal becomes exactly one argument whose value is the string's Python value (after the documented $VAR/~ expansion for non-raw strings)",
 )
+
+
+# ---- @() injection: one argument per string or element, each string untouched ------------------------------------------------
+BI = "xonsh/built_ins.py::"
+OTHER = Opaque("pyobj")          # any other python value (ints, paths, ...)
+FN = Opaque("fn")
+XV = Union(Str, Bytes, FN, OTHER)
+INJ_EXT = {
+    "os.fsdecode": Ext(ret=Str, pure=True, uf="fsdecode"), "fsdecode": Ext(ret=Str, pure=True, uf="fsdecode"),
+    "str": Ext(ret=Str, pure=True, uf="textof"), "textof": Ext(ret=Str, pure=True, uf="textof"),
+}
+contract(
+    BI + "ensure_str_or_callable", "C04", params=dict(x=XV), externals=INJ_EXT, returns=Union(Str, FN),
+    config={"isinstance": {"str": ["str"], "bytes": ["bytes"]}, "callable_types": ("fn",)},
+    ensures={"a-string-is-returned-untouched": "implies(isinstance(x, str), result == x)",
+             "a-callable-is-returned-untouched": "implies(callable(x), result == x)",
+             "bytes-are-decoded-the-way-the-os-would": "implies(isinstance(x, bytes), result == fsdecode(x))"},
+    from_property="a value injected with @(expr) arrives verbatim ... never re-split, globbed or expanded",
+)
+contract(
+    BI + "list_of_strs_or_callables", "C04", params=dict(x=Union(Str, Bytes, FN, Seq(Str), OTHER)), returns=List(Union(Str, FN)),
+    externals=dict(INJ_EXT, **{"ensure_str_or_callable": Ext(ret=Union(Str, FN), pure=True, uf="ensured", ensures=["implies(isinstance(a0, str), result == a0)"],
+                                                             note="its own contract (a string is returned untouched)"),
+                               "ensured": Ext(ret=Union(Str, FN), pure=True, uf="ensured")}),
+    config={"isinstance": {"str": ["str"], "bytes": ["bytes"], "cabc.Iterable": ["seq"], "Iterable": ["seq"]}, "callable_types": ("fn",)},
+    ensures={"a-string-is-exactly-one-argument-equal-to-it": "implies(isinstance(x, str), len(result) == 1 and result[0] == x)",
+             "a-list-of-strings-is-one-argument-per-element-in-order-each-untouched":
+                 "implies(isinstance(x, list), len(result) == len(x) and forall(lambda j: result[j] == x[j], 0, len(x)))"},
+    from_property="a value injected with @(expr) arrives verbatim, one argument per string or element, never re-split, globbed or expanded",
+)
